@@ -163,6 +163,11 @@ def planDeletions (filtered scanned : List SEntry) (dst : Map DNode) : List Task
       !(filtered.any (·.rel == p)) && !(scanned.any (·.rel == p)) && !(ownMetadata.contains p)).map
     fun p => ⟨.delete, p, .nothing⟩
 
+/-- the denominator of the percentage check: the destination's entries, not counting sy's own
+    metadata files — which are never deletion candidates either (src/sync/mod.rs, deletion safety
+    check) -/
+def destCount (dst : Map DNode) : Nat := (dst.keys.filter fun p => !(ownMetadata.contains p)).length
+
 /-- the percentage check; `tie` stands for the f64 outcome at exact equality -/
 def guardRefuses (cfg : Cfg) (dels cnt : Nat) : Bool :=
   cfg.delete && !cfg.force && decide (0 < dels) && decide (0 < cnt) &&
@@ -340,7 +345,7 @@ def plan (cfg : Cfg) (scan : List SEntry) (dst : Map DNode) : List Task :=
 def runF (cfg : Cfg) (flt : Faults) (scan : List SEntry) (dst : Map DNode) (nextIno : Nat) : Result :=
   let tasks := plan cfg scan dst
   let dels := (tasks.filter (·.act == .delete)).length
-  if guardRefuses cfg dels dst.length then
+  if guardRefuses cfg dels (destCount dst) then
     { refused := true, aborted := false, dst := dst, tasks := tasks, created := 0, updated := 0,
       skipped := 0, deleted := 0, bytes := 0, events := [], errors := [], exit := 1 }
   else
